@@ -204,3 +204,157 @@ Example C02_select_of_rank_nonvacuous :
   Select32R64 c02_ex [0; 32] [0; 33; 33; 34; 35] 34 = Some (192, 256) /\
   spec_SelectFrom c02_ex 192 = (192, 256).
 Proof. vm_compute. intuition congruence. Qed.
+
+(** * widened: select against NextOne (C13's model, Model/BitmapNext.v) *)
+From Low Require Import Model.BitmapNext Proofs.SelectNext.
+
+(** NextOne over the whole rest of the bitmap = select of the rank there (or -1 when the rank
+    is already the total number of 1-bits) *)
+Theorem C02_NextOne_is_select_of_rank : forall ws p, words_ok ws -> 0 <= p < 64 * zlen ws ->
+  NextOne ws p (64 * zlen ws) =
+  Some (if rank1z (flat ws) p <? zlen (all_ones ws)
+        then fst (spec_Select ws (rank1z (flat ws) p)) else -1).
+Proof. exact NextOne_select_of_rank. Qed.
+Print Assumptions C02_NextOne_is_select_of_rank.
+
+(** ... stated over the three library functions as they are called *)
+Theorem C02_NextOne_is_Select32_of_Rank64 : forall ws tr sidx p r b a c, words_ok ws ->
+  IndexSelect32 ws = Some sidx -> 0 <= p < 64 * zlen ws ->
+  Rank64 ws (IndexRank64 ws tr) p = Some (r, b) -> r < zlen (all_ones ws) ->
+  Select32 ws sidx r = Some (a, c) ->
+  NextOne ws p (64 * zlen ws) = Some a.
+Proof. exact NextOne_is_Select32_of_Rank64. Qed.
+Print Assumptions C02_NextOne_is_Select32_of_Rank64.
+
+Theorem C02_NextOne_none_when_rank_total : forall ws tr p r b, words_ok ws ->
+  0 <= p < 64 * zlen ws ->
+  Rank64 ws (IndexRank64 ws tr) p = Some (r, b) -> zlen (all_ones ws) <= r ->
+  NextOne ws p (64 * zlen ws) = Some (-1).
+Proof. exact NextOne_none_iff_rank_total. Qed.
+Print Assumptions C02_NextOne_none_when_rank_total.
+
+(** the second component of a select result is what NextOne finds from just after the first
+    (NextOne's -1 corresponds to select's 64 * len) *)
+Theorem C02_Select32_then_NextOne : forall ws sidx i a b, words_ok ws ->
+  IndexSelect32 ws = Some sidx -> 0 <= i < zlen (all_ones ws) ->
+  Select32 ws sidx i = Some (a, b) -> a + 1 < 64 * zlen ws ->
+  NextOne ws (a + 1) (64 * zlen ws) = Some (if b <? 64 * zlen ws then b else -1).
+Proof. exact Select32_then_NextOne. Qed.
+Print Assumptions C02_Select32_then_NextOne.
+
+Theorem C02_Select32R64_then_NextOne : forall ws sidx ridx i a b, words_ok ws ->
+  IndexSelect32R64 ws = Some (sidx, ridx) -> 0 <= i < zlen (all_ones ws) ->
+  Select32R64 ws sidx ridx i = Some (a, b) -> a + 1 < 64 * zlen ws ->
+  NextOne ws (a + 1) (64 * zlen ws) = Some (if b <? 64 * zlen ws then b else -1).
+Proof. exact Select32R64_then_NextOne. Qed.
+Print Assumptions C02_Select32R64_then_NextOne.
+
+Example C02_NextOne_nonvacuous :
+  0 <= 64 < 64 * zlen c02_ex /\ NextOne c02_ex 64 256 = Some 191 /\
+  Select32 c02_ex [0; 32] 33 = Some (191, 192) /\ 191 + 1 < 64 * zlen c02_ex /\
+  NextOne c02_ex 192 256 = Some 192 /\
+  Select32 c02_ex [0; 32] 34 = Some (192, 256) /\ NextOne c02_ex 193 256 = Some (-1) /\
+  Rank64 c02_ex (IndexRank64 c02_ex true) 193 = Some (35, 0) /\ zlen (all_ones c02_ex) = 35.
+Proof. vm_compute. intuition congruence. Qed.
+
+(** * widened: select against ToArray (toarray.go, model in Model/BitmapOf.v) *)
+From Low Require Import Model.BitmapOf Proofs.SelectToArray.
+
+(** ToArray returns the ascending list of the 1-positions (the vocabulary of every theorem above) *)
+Theorem C02_ToArray_is_all_ones : forall ws, ToArray ws = Some (all_ones ws).
+Proof. exact c02_ToArray_all_ones. Qed.
+Print Assumptions C02_ToArray_is_all_ones.
+
+(** Select32 / Select32R64 with index i return elements i and i+1 of what ToArray returns *)
+Theorem C02_Select32_nth_ToArray : forall ws sidx ta i, words_ok ws ->
+  IndexSelect32 ws = Some sidx -> ToArray ws = Some ta -> 0 <= i < zlen ta ->
+  Select32 ws sidx i =
+  Some (nth (Z.to_nat i) ta 0, if i + 1 <? zlen ta then nth (Z.to_nat (i + 1)) ta 0 else 64 * zlen ws).
+Proof. exact Select32_nth_ToArray. Qed.
+Print Assumptions C02_Select32_nth_ToArray.
+
+Theorem C02_Select32R64_nth_ToArray : forall ws sidx ridx ta i, words_ok ws ->
+  IndexSelect32R64 ws = Some (sidx, ridx) -> ToArray ws = Some ta -> 0 <= i < zlen ta ->
+  Select32R64 ws sidx ridx i =
+  Some (nth (Z.to_nat i) ta 0, if i + 1 <? zlen ta then nth (Z.to_nat (i + 1)) ta 0 else 64 * zlen ws).
+Proof. exact Select32R64_nth_ToArray. Qed.
+Print Assumptions C02_Select32R64_nth_ToArray.
+
+(** the select index is every 32nd element of ToArray *)
+Theorem C02_IndexSelect32_of_ToArray : forall ws ta, ToArray ws = Some ta ->
+  IndexSelect32 ws = Some (map (fun k => nth (32 * k) ta 0) (seq 0 ((length ta + 31) / 32))).
+Proof. exact IndexSelect32_of_ToArray. Qed.
+Print Assumptions C02_IndexSelect32_of_ToArray.
+
+Example C02_ToArray_nonvacuous :
+  ToArray [5; 0; 2^63] = Some [0; 2; 191] /\ IndexSelect32 [5; 0; 2^63] = Some [0] /\
+  Select32 [5; 0; 2^63] [0] 1 = Some (2, 191) /\ Select32 [5; 0; 2^63] [0] 2 = Some (191, 192) /\
+  zlen (all_ones c02_ex) = 35 /\ IndexSelect32 c02_ex = Some [0; 32].
+Proof. vm_compute. intuition congruence. Qed.
+
+(** * range and monotonicity *)
+From Low Require Import Proofs.SelectExtra.
+
+(** under the size hypothesis [64 * len(words) < 2^31] every value involved fits Go's int32, so
+    the unbounded-[Z] statements above are statements about the int32 results *)
+Theorem C02_results_fit_int32 : forall ws i, 64 * zlen ws < 2 ^ 31 -> 0 <= i < zlen (all_ones ws) ->
+  0 <= fst (spec_Select ws i) < 2 ^ 31 /\ 0 <= snd (spec_Select ws i) < 2 ^ 31 /\ 0 <= i < 2 ^ 31.
+Proof. exact spec_Select_int32. Qed.
+Print Assumptions C02_results_fit_int32.
+
+Theorem C02_index_fits_int32 : forall ws x, 64 * zlen ws < 2 ^ 31 ->
+  In x (spec_IndexSelect32 ws) -> 0 <= x < 2 ^ 31.
+Proof. exact spec_IndexSelect32_int32. Qed.
+Print Assumptions C02_index_fits_int32.
+
+(** select is strictly increasing in i *)
+Theorem C02_select_increasing : forall ws i j, 0 <= i -> i < j < zlen (all_ones ws) ->
+  fst (spec_Select ws i) < fst (spec_Select ws j).
+Proof. exact spec_Select_increasing. Qed.
+Print Assumptions C02_select_increasing.
+
+Example C02_range_nonvacuous :
+  64 * zlen c02_ex < 2 ^ 31 /\ 0 <= 32 /\ 32 < 33 < zlen (all_ones c02_ex) /\
+  fst (spec_Select c02_ex 32) = 32 /\ fst (spec_Select c02_ex 33) = 191 /\
+  In 32 (spec_IndexSelect32 c02_ex).
+Proof. vm_compute. intuition congruence. Qed.
+
+(** * widened: select against PrevOne (C13's model) *)
+From Low Require Import Proofs.SelectPrev.
+
+(** the last 1-bit before the i-th 1-bit is the (i-1)-th; there is none before the 0-th *)
+Theorem C02_PrevOne_before_select : forall ws i, words_ok ws -> 0 <= i < zlen (all_ones ws) ->
+  let a := fst (spec_Select ws i) in
+  1 <= a ->
+  PrevOne ws 0 a = Some (if 0 <? i then fst (spec_Select ws (i - 1)) else -1).
+Proof. exact PrevOne_before_select. Qed.
+Print Assumptions C02_PrevOne_before_select.
+
+Theorem C02_Select32_then_PrevOne : forall ws sidx i a b, words_ok ws ->
+  IndexSelect32 ws = Some sidx -> 0 <= i < zlen (all_ones ws) ->
+  Select32 ws sidx i = Some (a, b) -> 1 <= a ->
+  PrevOne ws 0 a =
+  match (if 0 <? i then Select32 ws sidx (i - 1) else Some (-1, 0)) with
+  | Some (r, _) => Some r
+  | None => None
+  end.
+Proof. exact Select32_then_PrevOne. Qed.
+Print Assumptions C02_Select32_then_PrevOne.
+
+Theorem C02_Select32R64_then_PrevOne : forall ws sidx ridx i a b, words_ok ws ->
+  IndexSelect32R64 ws = Some (sidx, ridx) -> 0 <= i < zlen (all_ones ws) ->
+  Select32R64 ws sidx ridx i = Some (a, b) -> 1 <= a ->
+  PrevOne ws 0 a =
+  match (if 0 <? i then Select32R64 ws sidx ridx (i - 1) else Some (-1, 0)) with
+  | Some (r, _) => Some r
+  | None => None
+  end.
+Proof. exact Select32R64_then_PrevOne. Qed.
+Print Assumptions C02_Select32R64_then_PrevOne.
+
+Example C02_PrevOne_nonvacuous :
+  0 <= 33 < zlen (all_ones c02_ex) /\ fst (spec_Select c02_ex 33) = 191 /\
+  PrevOne c02_ex 0 191 = Some 32 /\ Select32 c02_ex [0; 32] 32 = Some (32, 191) /\
+  PrevOne [2^63; 2] 0 63 = Some (-1) /\ Select32 [2^63; 2] [63] 0 = Some (63, 65) /\
+  PrevOne [2^63; 2] 0 65 = Some 63.
+Proof. vm_compute. intuition congruence. Qed.
